@@ -5,7 +5,7 @@ src/utils/str.py, src/utils/gen.py and plugins/Config/plugin.py it relies on).
   Codec.lean   unicode_escape encoder/decoder, repr(str), evaluation of one string literal
   Values.lean  String family, Boolean, Integer family, Space/Comma separated lists
   File.lean    registry.close line format, open_registry, escape/unescape/split/join of names
-  Wrap.lean    NormalizedString.serialize: textwrap line filling, continuation lines
+  Wrap.lean    NormalizedString.serialize: textwrap word runs, line filling, continuation lines
   Tree.lean    the live value tree: _wasSet, _setValue(inherited), _makeChild, getSpecific,
                Config reset, which nodes are written, start-up registration from the cache
 
@@ -66,15 +66,20 @@ def ClassId.show (pr : Char → Bool) (c : ClassId) (v : Val) : Str :=
   | .sock _ _, .i x => intStr x
   | _, _ => []
 
-/-- `node.serialize()` (NormalizedString's line wrapping is in `Wrap.lean`) -/
+/-- `Value.serialize()`: the escaped `str(node)` -/
 def ClassId.serialize (pr : Char → Bool) (c : ClassId) (v : Val) : Str := encodeUE (c.show pr v)
+
+/-- `node.serialize()` of the node called `name`: NormalizedString wraps the escaped text into
+continuation lines whose width depends on the name -/
+def ClassId.serializeAt (pr : Char → Bool) (c : ClassId) (name : Str) (v : Val) : Str :=
+  if c = .str .normalized then nsSerialize name (c.serialize pr v) else c.serialize pr v
 
 def ClassId.cls (pr : Char → Bool) (c : ClassId) (dflt : Val) : Cls Val :=
   { set := c.set pr, str := c.show pr, dflt := dflt }
 
 /-- the text of the file `registry.close` writes for the listed nodes (help blocks omitted) -/
 def saveText (pr : Char → Bool) (c : ClassId) (nodes : List (Str × Val)) : Str :=
-  fileText (nodes.map fun nv => ⟨[], nv.1, c.serialize pr nv.2⟩)
+  fileText (nodes.map fun nv => ⟨[], nv.1, c.serializeAt pr nv.1 nv.2⟩)
 
 /-- save the variable, start a fresh process on the written file -/
 def saveLoad (pr : Char → Bool) (c : ClassId) (dflt : Val) (K : Kind) (B : Str) (s : St Val) : Boot Val :=
